@@ -455,6 +455,26 @@ func (fr *Frame) evalCall(x *ECall, env *Env) Val {
 	c := fr.c
 	arg := func(i int) Val { return fr.evalExpr(x.Args[i], env) }
 	switch x.Fn {
+	case "local":
+		// value of a local variable of the function in the evaluation state (used in
+		// postconditions about a value built in a local, e.g. a strings.Builder)
+		if id, ok := x.Args[0].(*EIdent); ok {
+			if v, ok := fr.lookupCellByName(id.Name, env.cur); ok {
+				return v
+			}
+		}
+		// declared later on this path (e.g. an early return): an unconstrained value of its type
+		if id, ok := x.Args[0].(*EIdent); ok {
+			for _, b := range fr.fn.Blocks {
+				for _, in := range b.Instrs {
+					if a, isA := in.(*ssa.Alloc); isA && a.Comment == id.Name {
+						return fr.freshVal(deref(a.Type()), "nolocal_"+id.Name)
+					}
+				}
+			}
+		}
+		c.errorf("%s: local(): no such local", fr.name)
+		return intVal("0")
 	case "outer":
 		// value of the expression at the head of the enclosing loop (current outer iteration)
 		if env.loop == nil {
@@ -545,6 +565,70 @@ func (fr *Frame) evalCall(x *ECall, env *Env) Val {
 		k := arg(0)
 		v, _ := c.mapLookup("sqlKeywords", k)
 		return intVal(v)
+	}
+	if x.Fn == "stateOf" {
+		// abstract value of the whole scanner state reachable from s (every sqliState and
+		// sqliToken field array, and the reference itself)
+		sref := arg(0)
+		name := "STATEOF"
+		var sorts, comps []string
+		for _, key := range c.heapKeys {
+			if strings.HasPrefix(key, "sqliState.") || strings.HasPrefix(key, "sqliToken.") {
+				sorts = append(sorts, "(Array Int "+c.heapSort[key]+")")
+				comps = append(comps, env.cur.heap[key])
+			}
+		}
+		sorts = append(sorts, "Int")
+		comps = append(comps, sref.C[0])
+		if !c.ufuns[name] {
+			c.ufuns[name] = true
+			c.emit("(declare-fun " + name + " (" + strings.Join(sorts, " ") + ") Int)")
+		}
+		return intVal("(" + name + " " + strings.Join(comps, " ") + ")")
+	}
+	if uf := c.pr.Cs.Ufuns[x.Fn]; uf != nil {
+		if len(uf.Params) != len(x.Args) {
+			c.errorf("%s: ufun %s expects %d arguments", fr.name, x.Fn, len(uf.Params))
+			return intVal("0")
+		}
+		var sorts, comps []string
+		for i, pt := range uf.Params {
+			v := arg(i)
+			switch pt {
+			case "string":
+				sorts = append(sorts, "(Array Int Int)", "Int", "Int")
+			case "bool":
+				sorts = append(sorts, "Bool")
+			default:
+				sorts = append(sorts, "Int")
+			}
+			comps = append(comps, flat(v)...)
+		}
+		decl := func(name, ret string) {
+			if !c.ufuns[name] {
+				c.ufuns[name] = true
+				c.emit("(declare-fun " + name + " (" + strings.Join(sorts, " ") + ") " + ret + ")")
+			}
+		}
+		app := func(name string) string {
+			if len(comps) == 0 {
+				return name
+			}
+			return "(" + name + " " + strings.Join(comps, " ") + ")"
+		}
+		switch uf.Ret {
+		case "string":
+			decl("UF_"+uf.Name+"_a", "(Array Int Int)")
+			decl("UF_"+uf.Name+"_o", "Int")
+			decl("UF_"+uf.Name+"_l", "Int")
+			return Val{K: KStr, C: []string{app("UF_" + uf.Name + "_a"), app("UF_" + uf.Name + "_o"), app("UF_" + uf.Name + "_l")}}
+		case "bool":
+			decl("UF_"+uf.Name, "Bool")
+			return boolVal(app("UF_" + uf.Name))
+		default:
+			decl("UF_"+uf.Name, "Int")
+			return intVal(app("UF_" + uf.Name))
+		}
 	}
 	if sp := c.pr.Cs.Specs[x.Fn]; sp != nil {
 		if len(sp.Params) != len(x.Args) {
